@@ -368,7 +368,7 @@ PROPERTY = {
             strategy=strat_partitioner,
             nontrivial=lambda L: "nontrivial" in L,
             quick=800,
-            thorough=15000,
+            thorough=60000,
             shards_quick=16,
             describe=lambda c: {"n_points": len(c["data"]), "first_points": c["data"][:3], "cu": c["cu"], "lb": c["lb"], "ops": [{k: v for k, v in o.items() if k != "data"} for o in c["ops"]]},
         )
